@@ -4,9 +4,28 @@
 import json, os, subprocess, sys
 R = os.path.dirname(os.path.dirname(os.path.abspath(__file__)))
 props = {json.loads(l)["id"]: json.loads(l) for l in open(os.path.join(R, "properties.jsonl"))}
-for pid in sys.argv[1:]:
+ROUND = 1
+args = sys.argv[1:]
+if "--round" in args:
+    ROUND = int(args[args.index("--round") + 1]); del args[args.index("--round"):args.index("--round") + 2]
+def earlier(pid):
+    """one-line summaries of the changes earlier writers already produced for this property (titles only:
+    nothing about the verification machinery), so that a later round produces different ones"""
+    out = []
+    sd = os.path.join(R, "seeded")
+    for m in sorted(os.listdir(sd)):
+        mj = os.path.join(sd, m, "meta.json")
+        if m.startswith(pid + "-") and os.path.exists(mj):
+            s = json.load(open(mj)).get("summary") or ""
+            if not s:
+                rd = os.path.join(sd, m, "README.md")
+                if os.path.exists(rd):
+                    s = open(rd).readline().strip("# \n")
+            out.append("  * " + s)
+    return "\n".join(out)
+for pid in args:
     p = props[pid]
-    d = f"/tmp/mut/{pid}"
+    d = f"/tmp/mut{'' if ROUND == 1 else ROUND}/{pid}"
     os.makedirs(d + "/out", exist_ok=True)
     wt = d + "/repo"
     if not os.path.exists(wt):
@@ -28,6 +47,7 @@ Why the existing tests cannot settle it: {p['why_tests_cant']}
 
 Relevant files (read them): {', '.join(p['anchors']['files'])}
 
+{("## Changes other writers already produced (yours must differ in mechanism AND location from all of these)" + chr(10) + chr(10) + earlier(pid) + chr(10)) if ROUND > 1 else ""}
 ## What to produce
 
 THREE different changes (source patches) to the library code under `src/kernel` / `src/utility`, each of which
